@@ -58,6 +58,9 @@ CHECKS = {
              ref='4/C18'),
 }
 NA = {
+ 'C05': 'Haissinski equilibrium is the stationary state of thousands of composed nonlinear float steps with ln(rho) in the oracle: neither the fixed point nor its distance to the continuous solution is a bounded symbolic-execution question; its decidable ingredients (wake scale/placement C06, wake copied into the kick of the same bunch C06/C08, RF/drift fields and rotation C03, energy relaxation C04, step order C12/C14 grammar) are claimed there (DESIGN.md 5)',
+ 'C11': 'needs two complete program executions joined through a real HDF5 file (libhdf5 on both sides) and an equivalence over many float steps; only the record-index arithmetic and size guard of readPhaseSpace are encodable and are decided under C17 (DESIGN.md 5)',
+ 'C20': 'option precedence, alias binding, defaults and error handling are decided inside compiled boost::program_options (store/notify/parse_*, validators, lexical_cast) reached through virtual calls and exceptions: no IR to execute; a stub precise enough would restate the property. The writer half that is Inovesa code is claimed under C13 (DESIGN.md 5)',
 }
 PENDING = 'check not built yet in this round (breadth-first build in progress); no claim is made'
 def main():
